@@ -227,4 +227,47 @@ def UDP.WF (u : UDP) : Prop :=
   u.srcPort < 65536 ∧ u.dstPort < 65536 ∧ u.length < 65536 ∧ u.checksum < 65536
 def SCMPHdr.WF (h : SCMPHdr) : Prop := h.typ < 256 ∧ h.code < 256 ∧ h.checksum < 65536
 
+
+/-! ### the SPAO option views (`pkg/slayers/pkt_auth.go`) -/
+
+/-- `PacketAuthOptionParams` -/
+structure AuthParams where
+  spi : Nat
+  alg : Nat
+  ts : Nat          -- TimestampSN (48 bit)
+  auth : Bytes
+deriving DecidableEq, Repr
+
+inductive AErr where
+  | wrongType      -- ParsePacketAuthOption: OptType != OptTypeAuthenticator
+  | short          -- ParsePacketAuthOption: len(OptData) < PacketAuthOptionMetadataLen
+  | tsRange        -- Reset: TimestampSN >= 2^48
+deriving DecidableEq, Repr
+
+/-- `PacketAuthOption.Reset(p)` (= `NewPacketAuthOption`): the E2E option carrying the SPAO:
+type 2, data = SPI(4) ‖ Algorithm(1) ‖ RSV(1)=0 ‖ Timestamp/SN(6) ‖ Authenticator, aligned 4n+2 -/
+def encAuthOpt (p : AuthParams) : Except AErr Opt :=
+  if p.ts ≥ 2^48 then .error .tsRange
+  else .ok { typ := 2, dataLen := (12 + p.auth.length) % 256,
+             data := natBE 4 p.spi ++ [UInt8.ofNat p.alg, 0] ++ natBE 6 p.ts ++ p.auth,
+             alignX := 4, alignY := 2 }
+
+/-- `ParsePacketAuthOption(o)` followed by the views `SPI()`, `Algorithm()`, `TimestampSN()`,
+`Authenticator()` -/
+def parseAuthOpt (o : Opt) : Except AErr AuthParams :=
+  if o.typ ≠ 2 then .error .wrongType
+  else match o.data with
+    | s0 :: s1 :: s2 :: s3 :: a :: _ :: t0 :: t1 :: t2 :: t3 :: t4 :: t5 :: auth =>
+      .ok ⟨beNat [s0, s1, s2, s3], a.toNat, beNat [t0, t1, t2, t3, t4, t5], auth⟩
+    | _ => .error .short
+
+/-- what the `fixLengths` serializer writes for one option (after its alignment padding) -/
+def optBytes (o : Opt) : Bytes :=
+  if o.typ = 0 then [0] else UInt8.ofNat o.typ :: UInt8.ofNat o.data.length :: o.data
+
+def AuthParams.WF (p : AuthParams) : Prop :=
+  p.spi < 2^32 ∧ p.alg < 256 ∧ p.ts < 2^48 ∧ p.auth.length ≤ 243
+
+instance (p : AuthParams) : Decidable p.WF := by unfold AuthParams.WF; exact inferInstance
+
 end Scion.WireExt
